@@ -89,6 +89,32 @@ pub fn case_line(id: &str, cid: &str, input: &[String], obs: &str) -> String {
 
 static BATCH: std::sync::atomic::AtomicUsize = std::sync::atomic::AtomicUsize::new(0);
 
+/// the case currently executing on the real code (for the watchdog): (case line without observable, start)
+static CURRENT: std::sync::Mutex<Option<(String, Instant)>> = std::sync::Mutex::new(None);
+
+/// A case on which the implementation does not return is reported with that case as the replay.
+fn start_watchdog(id: &'static str, replay_dir: PathBuf, seed: u64) {
+    let limit = std::time::Duration::from_secs(std::env::var("VERIF_CASE_TIMEOUT_S").ok().and_then(|s| s.parse().ok()).unwrap_or(120));
+    std::thread::spawn(move || loop {
+        std::thread::sleep(std::time::Duration::from_millis(250));
+        let cur = CURRENT.lock().map(|g| g.clone()).unwrap_or(None);
+        if let Some((line, t0)) = cur {
+            if t0.elapsed() > limit {
+                let path = replay_dir.join(format!("{}-{}-{}-hang.case", id, seed, std::process::id()));
+                if let Ok(mut f) = std::fs::File::create(&path) {
+                    writeln!(f, "# property {}", id).ok();
+                    writeln!(f, "# verdict hang: the implementation did not return within {} s on this case", limit.as_secs()).ok();
+                    writeln!(f, "# replay with: ./check {} --replay {}", id, path.display()).ok();
+                    writeln!(f, "{} | hang", line).ok();
+                }
+                println!("VIOLATION property={} replay={}", id, path.display());
+                println!("  hang: the implementation did not return within {} s on the case recorded in the replay file", limit.as_secs());
+                std::process::exit(1);
+            }
+        }
+    });
+}
+
 /// Execute the real code on every case, ask the driver, return the verdicts.
 pub fn evaluate(p: &PropDef, o: &Opts, cases: Vec<Case>) -> Vec<Done> {
     if cases.is_empty() { return vec![]; }
@@ -98,7 +124,9 @@ pub fn evaluate(p: &PropDef, o: &Opts, cases: Vec<Case>) -> Vec<Done> {
     {
         let mut f = std::io::BufWriter::new(std::fs::File::create(&path).expect("create batch"));
         for (i, c) in cases.iter().enumerate() {
+            if let Ok(mut g) = CURRENT.lock() { *g = Some((format!("{} {}:{} {}", p.id, c.stream, i, c.input.join(" ")), Instant::now())); }
             let ob = exec_guarded(p, &c.input);
+            if let Ok(mut g) = CURRENT.lock() { *g = None; }
             writeln!(f, "{}", case_line(p.id, &format!("{}:{}", c.stream, i), &c.input, &ob)).unwrap();
             obs.push(ob);
         }
@@ -244,6 +272,7 @@ pub fn run_prop(p: &PropDef, o: &Opts) -> i32 {
     std::fs::create_dir_all(&o.replay_dir).ok();
     let mut rng = Rng::new(o.seed);
     let known = load_known(p.id, &o.known);
+    start_watchdog(p.id, o.replay_dir.clone(), o.seed);
 
     let mut cases: Vec<Case> = vec![];
     if let Some(rp) = &o.replay {
